@@ -26,7 +26,7 @@ namespace internal {
 template <typename T>
 constexpr auto trunc_int(T const x) noexcept -> T
 {
-    return (T(static_cast<llint_t>(x)));
+    return ((x < T(0)) && (x > T(-1))) ? -T(0) : (T(static_cast<llint_t>(x)));
 }
 
 template <typename T>
@@ -38,9 +38,12 @@ constexpr auto trunc_check(T const x) noexcept -> T
             !is_finite(x) ? x
                           :
                           // signed-zero cases
-            etl::numeric_limits<T>::epsilon() > abs(x) ? x
-                                                       :
-                                                       // else
+            x == T(0) ? x
+                      :
+                      // no fractional part (and outside the range of the integer cast below)
+            abs(x) >= T(1) / etl::numeric_limits<T>::epsilon() ? x
+                                                               :
+                                                               // else
             trunc_int(x)
     );
 }
